@@ -135,13 +135,31 @@ func popcount(m uint32) int {
 
 func main() {
 	cfg := hx.ParseFlags()
-	s := hx.NewStream("colour", "model.Colour", "Z * Z", "c07_colour_mismatches", "c07_colour_violations")
+	// model = the float64 loop (model/ColourFloat.v); property = nearest under the exact distance
+	s := hx.NewStream("colour", "model.Colour model.ColourFloat", "Z * Z", "c07_colourf_mismatches", "c07_colour_violations")
 	s.ShardMax = 2000
+	exact := newExactScan()
 	add := func(c vaxis.Color, tag string) {
 		r := vaxis.VerifAsIndex(c)
-		s.Add(hx.Tuple(hx.ZU(uint64(c)), hx.ZU(uint64(r))),
-			map[string]interface{}{"color": uint32(c), "as_index": uint32(r)},
-			c&(1<<25) != 0, tag)
+		tags := []string{tag}
+		js := map[string]interface{}{"color": uint32(c), "as_index": uint32(r)}
+		if c&(1<<25) != 0 {
+			first, _, count := exact.scan(uint32(c))
+			if count > 1 {
+				tags = append(tags, "exact-tie-at-minimum")
+				js["entries_at_exact_minimum"] = count
+			}
+			if int(uint32(r)&0xffffff)-16 != first {
+				tags = append(tags, "not-first-exact-minimum")
+				js["first_exact_minimum"] = first + 16
+			}
+		}
+		s.Add(hx.Tuple(hx.ZU(uint64(c)), hx.ZU(uint64(r))), js, c&(1<<25) != 0, tags...)
+	}
+	// all 2^24 colours through the real asIndex: those that are not the first exact minimum
+	sw := sweep(exact)
+	for _, c := range sw.cols {
+		add(vaxis.HexColor(c), "sweep")
 	}
 	// non-RGB colours are returned unchanged
 	add(vaxis.Color(0), "default")
@@ -172,7 +190,7 @@ func main() {
 	// histories: conversions are made in sequence by one process, so a result must not depend on
 	// what was converted before: exact palette entries and other colours, with repeats
 	cube := []int{0, 0x5f, 0x87, 0xaf, 0xd7, 0xff}
-	exact := func() vaxis.Color {
+	exactEntry := func() vaxis.Color {
 		if cfg.Rand.Intn(4) == 0 {
 			v := uint8(8 + 10*cfg.Rand.Intn(24))
 			return vaxis.RGBColor(v, v, v)
@@ -183,13 +201,13 @@ func main() {
 	if cfg.Thorough() {
 		nh = 60000
 	}
-	prev := exact()
+	prev := exactEntry()
 	for i := 0; i < nh; i++ {
 		c := prev
 		switch x := cfg.Rand.Intn(10); {
 		case x < 4: // the same colour again
 		case x < 7:
-			c = exact()
+			c = exactEntry()
 		case x < 9:
 			c = vaxis.HexColor(uint32(cfg.Rand.Intn(1 << 24)))
 		default:
@@ -202,7 +220,15 @@ func main() {
 	for i := 0; i < 50; i++ {
 		add(vaxis.Color(cfg.Rand.Uint32()), "rawbits")
 	}
+	// colours with an exact tie at the minimum: one channel half way between two cube levels
+	for i := 0; i < 150; i++ {
+		mid := []int{115, 155, 195, 235}[cfg.Rand.Intn(4)]
+		ch := [3]int{cfg.Rand.Intn(256), cfg.Rand.Intn(256), cfg.Rand.Intn(256)}
+		ch[cfg.Rand.Intn(3)] = mid
+		add(vaxis.RGBColor(uint8(ch[0]), uint8(ch[1]), uint8(ch[2])), "midpoint")
+	}
+	fdistS := fdistStream(cfg)
 	capsS, gateS, widthS := capsStreams(cfg)
-	cfg.Write("C07", "width: on the same terminals (some identifying as kitty: noZWJ quirk) RenderedWidth of probe graphemes (narrow, wide, emoji with modifier, ZWJ sequence, combining, VS16, flag, empty, lone mark) against the library's gwidth under the method the reported capabilities select; caps: fake terminals answering exactly the start-up queries of a capability subset (quick: none, all, every single capability, every pair, 400 random subsets of 17; thorough: all 2^17), capabilities reported by Vaxis compared with those advertised; gate: on such terminals three frames (render, render with cursor, refresh) with direct/indexed colours, styled and coloured underlines, hyperlinks, wide and zero-width cells, every token written classified by allowed; colours: default, indexed, all triples over a set of boundary channel levels, uniformly random RGB, raw 32-bit values, and histories of conversions with repeats of exact palette entries (a result must not depend on earlier conversions); non-trivial = RGB-tagged (goes through the palette search); distinct by (colour,result)",
-		[]*hx.Stream{s, capsS, gateS, widthS}, nil, nil)
+	cfg.Write("C07", "fdist: pairs of channel-difference triples in [-255,255]^3 (all triples over a boundary set, all 511 values of each term, random, algebraic exact ties and their neighbours, neighbours in the exact order of two windows: exact ties between different triples and gaps <= 2/10^4) with math.Float64bits of asIndex's trial expression for both, Go's trial(d) < trial(e) and trial(d) == 0, compared bit for bit with the binary64 model; non-trivial = the triples differ; colours now also: every one of the 2^24 RGB colours whose asIndex result is not the first entry at minimal exact distance (found by running the real asIndex on all of them), and colours with one channel half way between two cube levels (exact ties); width: on the same terminals (some identifying as kitty: noZWJ quirk) RenderedWidth of probe graphemes (narrow, wide, emoji with modifier, ZWJ sequence, combining, VS16, flag, empty, lone mark) against the library's gwidth under the method the reported capabilities select; caps: fake terminals answering exactly the start-up queries of a capability subset (quick: none, all, every single capability, every pair, 400 random subsets of 17; thorough: all 2^17), capabilities reported by Vaxis compared with those advertised; gate: on such terminals three frames (render, render with cursor, refresh) with direct/indexed colours, styled and coloured underlines, hyperlinks, wide and zero-width cells, every token written classified by allowed; colours: default, indexed, all triples over a set of boundary channel levels, uniformly random RGB, raw 32-bit values, and histories of conversions with repeats of exact palette entries (a result must not depend on earlier conversions); non-trivial = RGB-tagged (goes through the palette search); distinct by (colour,result)",
+		[]*hx.Stream{s, fdistS, capsS, gateS, widthS}, map[string]interface{}{"sweep": sw}, nil)
 }
